@@ -1072,9 +1072,10 @@ def run(run, tier, seed, replay=None):
             # thorough tier and the world-exhaustive boxes enumerate the full box
             jobs = [j for k, j in enumerate(jobs) if len(j["ops"]) <= 2 or k % 3 == seed % 3]
         elif not quick and ctr == "module":
-            # thorough tier: the full box up to length 3 and every sixth sequence of length 4 (rotating with the seed),
-            # which keeps the tier inside its time budget (the full length-4 box has ~3.5e5 histories)
-            jobs = [j for k, j in enumerate(jobs) if len(j["ops"]) <= 3 or k % 6 == seed % 6]
+            # thorough tier: the full box up to length 3 and every 24th sequence of length 4 (rotating with the seed),
+            # which keeps the tier inside its time budget (the full length-4 box has ~3.5e5 histories; the tier took
+            # 92 minutes with every sixth)
+            jobs = [j for k, j in enumerate(jobs) if len(j["ops"]) <= 3 or k % 24 == seed % 24]
         jj, oo, res, nf = evaluate("exh" + ctr[0], jobs, chunk=500)
         run.stream(f"exhaustive-small-{ctr}", len(jobs), len({json.dumps(j["ops"]) for j in jobs if nontrivial(j)}),
                    exhaustive=(len(jobs) == nall), box_size=nall, ops_per_step=nops, max_length=maxlen, elaboration_failed=nf,
